@@ -18,6 +18,11 @@
 #include "queue.h"
 #include "convert.h"
 #include "message.h"
+#include "stream.h"
+#include "event.h"
+#include <poll.h>
+#include <sys/syscall.h>
+#include <errno.h>
 #include "mc.hpp"
 #include "refcodec.hpp"
 
@@ -346,14 +351,134 @@ static void explore(Run &r, Counters &c, int f, const std::vector<int> &seq, con
 	(void) total;
 }
 
+
+// ================================================================ level 2: stream objects over pipes
+// Two mpt::stream objects (sender: buffered writer with encoder, receiver: buffered reader with
+// decoder) connected by a non-blocking pipe.  writev/readv are interposed: for the pipe's descriptors the
+// explorer decides how many bytes the call transfers (all / 1 / half; writev may also answer EAGAIN).
+// Driver: at each step either the next sender operation (push whole message, end, flush) or one receiver round
+// (mpt_stream_poll(POLLIN,-1) + mpt_stream_dispatch until it reports nothing further).  Choice-tree DFS with a
+// deviation bound (default = sender first, full transfers).
+static Ctx *g_l2ctx = 0; static int g_wfd = -1, g_rfd = -1; static size_t g_inpipe = 0;
+static uint64_t g_short_writes = 0, g_short_reads = 0, g_eagain = 0;
+extern "C" ssize_t writev(int fd, const struct iovec *iov, int cnt)
+{
+	if (fd != g_wfd || !g_l2ctx) return syscall(SYS_writev, fd, iov, cnt);
+	size_t total = 0; for (int i = 0; i < cnt; ++i) total += iov[i].iov_len;
+	size_t lim = total;
+	if (total > 1) { uint64_t c = g_l2ctx->choose(4); if (c == 1) lim = 1; else if (c == 2) lim = total / 2; else if (c == 3) { ++g_eagain; errno = EAGAIN; return -1; } if (c) ++g_short_writes; }
+	struct iovec tmp[4]; int n = 0; size_t left = lim;
+	for (int i = 0; i < cnt && i < 4 && left; ++i) { tmp[n] = iov[i]; if (tmp[n].iov_len > left) tmp[n].iov_len = left; left -= tmp[n].iov_len; ++n; }
+	ssize_t r = syscall(SYS_writev, fd, tmp, n);
+	if (r > 0) g_inpipe += r;
+	return r;
+}
+extern "C" ssize_t readv(int fd, const struct iovec *iov, int cnt)
+{
+	if (fd != g_rfd || !g_l2ctx) return syscall(SYS_readv, fd, iov, cnt);
+	size_t total = 0; for (int i = 0; i < cnt; ++i) total += iov[i].iov_len;
+	size_t avail = g_inpipe < total ? g_inpipe : total, lim = avail;
+	if (avail > 1) { uint64_t c = g_l2ctx->choose(3); if (c == 1) lim = 1; else if (c == 2) lim = avail / 2; if (c) ++g_short_reads; }
+	struct iovec tmp[4]; int n = 0; size_t left = lim;
+	for (int i = 0; i < cnt && i < 4 && left; ++i) { tmp[n] = iov[i]; if (tmp[n].iov_len > left) tmp[n].iov_len = left; left -= tmp[n].iov_len; ++n; }
+	if (!n) { errno = EAGAIN; return -1; }
+	ssize_t r = syscall(SYS_readv, fd, tmp, n);
+	if (r > 0) g_inpipe -= r;
+	return r;
+}
+struct L2recv { std::vector<Bytes> got; };
+static int l2_cb(void *arg, const message *m)
+{
+	L2recv *rc = (L2recv *) arg; Bytes b;
+	if (m) { b.assign((uint8_t *) m->base, (uint8_t *) m->base + m->used); for (size_t i = 0; i < m->clen; ++i) b.insert(b.end(), (uint8_t *) m->cont[i].iov_base, (uint8_t *) m->cont[i].iov_base + m->cont[i].iov_len); }
+	rc->got.push_back(b);
+	return 0;
+}
+struct L2Counters { uint64_t exec, nontrivial; };
+static void level2_body(Run &r, L2Counters &c, int f, const std::vector<Bytes> &msgs, Ctx &x)
+{
+	std::string sc = std::string(ref::framing_name[f]) + "|stream";
+	int pfd[2]; if (pipe(pfd) < 0) return;
+	fcntl(pfd[0], F_SETFL, O_NONBLOCK); fcntl(pfd[1], F_SETFL, O_NONBLOCK);
+	g_rfd = pfd[0]; g_wfd = pfd[1]; g_inpipe = 0; g_l2ctx = &x;
+	uint64_t sw0 = g_short_writes + g_short_reads + g_eagain;
+	asan_error();
+	std::string desc = fmt("%s %zu message(s)", sc.c_str(), msgs.size());
+	{
+		stream snd, rcv;
+		_mpt_stream_setfile(&snd._info, -1, pfd[1]); mpt_stream_setmode(&snd, stream::WriteBuf); snd._wd._enc = encoders[f];
+		_mpt_stream_setfile(&rcv._info, pfd[0], -1); mpt_stream_setmode(&rcv, stream::ReadBuf); rcv._rd._dec = decoders[f];
+		L2recv rc; size_t mi = 0; int phase = 0;   // phase 0: push, 1: end, 2: flush
+		bool bad = false; int steps = 0;
+		auto check_prefix = [&]() { if (rc.got.size() > msgs.size()) return false; for (size_t i = 0; i < rc.got.size(); ++i) if (rc.got[i] != msgs[i]) return false; return true; };
+		auto receiver_round = [&]() {
+			r.hint((sc + "|poll").c_str());
+			if (g_inpipe) { int k = LIB(mpt_stream_poll(&rcv, POLLIN, -1)); r.note("poll -> %d (pipe %zu)", k, g_inpipe); }
+			r.hint((sc + "|dispatch").c_str());
+			for (int i = 0; i < 64; ++i) { int e = LIB(mpt_stream_dispatch(&rcv, l2_cb, &rc)); r.note("dispatch -> 0x%x, %zu received", e, rc.got.size()); if (e < 0 || !(e & event::Retry)) break; }
+		};
+		while (!bad && steps++ < 400) {
+			bool sender_can = mi < msgs.size() || (snd._wd._state.done > 0);
+			bool receiver_can = g_inpipe > 0;
+			if (!sender_can && !receiver_can) break;
+			uint64_t who = (sender_can && receiver_can) ? x.choose(2) : (sender_can ? 0 : 1);
+			if (who == 0) {
+				if (mi < msgs.size() && phase == 0) {
+					r.hint((sc + "|push").c_str());
+					const Bytes &m = msgs[mi];
+					if (m.empty()) phase = 1;
+					else { uint8_t *src = (uint8_t *) malloc(m.size()); memcpy(src, m.data(), m.size()); ssize_t k = LIB(mpt_stream_push(&snd, m.size(), src)); free(src); r.note("push %zu -> %zd", m.size(), k); if (k != (ssize_t) m.size()) { r.violation(sc + "|push|refused", desc + fmt(": mpt_stream_push(%zu) returned %zd on a resizable write buffer", m.size(), k)); bad = true; } phase = 1; }
+				} else if (mi < msgs.size() && phase == 1) {
+					r.hint((sc + "|end").c_str());
+					ssize_t k = LIB(mpt_stream_push(&snd, 0, 0)); r.note("end -> %zd", k);
+					if (k < 0) { r.violation(sc + "|push|refused", desc + fmt(": message termination returned %zd", k)); bad = true; }
+					phase = 0; ++mi;
+					if (x.choose(2)) continue;        // deviation: do not flush now (frames pile up in the write buffer)
+					r.hint((sc + "|flush").c_str()); int fl = LIB(mpt_stream_flush(&snd)); r.note("flush -> %d", fl);
+				} else {
+					r.hint((sc + "|flush").c_str()); int fl = LIB(mpt_stream_flush(&snd)); r.note("flush -> %d (done %zu)", fl, snd._wd._state.done);
+				}
+			} else receiver_round();
+			if (asan_error()) { r.violation(sc + "|memory", desc + ": AddressSanitizer report"); bad = true; }
+			else if (!check_prefix()) { r.violation(sc + "|wrong-message", desc + fmt(": after %d steps the %zu received message(s) are not a prefix of the sent ones (last {%s})", steps, rc.got.size(), rc.got.empty() ? "" : ref::hexs(rc.got.back()).c_str())); bad = true; }
+		}
+		if (!bad) {
+			// drain: everything is on the wire or in the receiver; a few more rounds must deliver all
+			for (int i = 0; i < 8 && rc.got.size() < msgs.size(); ++i) receiver_round();
+			if (steps >= 400) r.violation(sc + "|no-progress", desc + ": driver did not finish in 400 steps");
+			else if (rc.got.size() != msgs.size() || !check_prefix()) r.violation(sc + "|stall", desc + fmt(": all frames written and read, %zu of %zu messages delivered", rc.got.size(), msgs.size()));
+		}
+		g_l2ctx = 0;     // stream destructors flush/close without explorer choices
+	}
+	g_l2ctx = 0; g_rfd = g_wfd = -1;
+	close(pfd[0]); close(pfd[1]);
+	++c.exec; ++r.transitions;
+	if (g_short_writes + g_short_reads + g_eagain != sw0) ++c.nontrivial;
+}
+
 void mc_jobs(Tier t, std::vector<std::string> &jobs)
 {
 	std::vector<std::vector<int>> seqs; sequences(t, seqs);
 	for (int f = 0; f < 4; ++f) for (size_t i = 0; i < seqs.size(); ++i) jobs.push_back(fmt("%d:%zu", f, i));
+	for (int f = 0; f < 4; ++f) for (size_t i = 0; i < seqs.size(); ++i) jobs.push_back(fmt("L2:%d:%zu", f, i));
 }
 static void run(Run &r, const std::string &job, const Vec *rep)
 {
 	int f; size_t si;
+	if (job.compare(0, 3, "L2:") == 0) {
+		if (sscanf(job.c_str() + 3, "%d:%zu", &f, &si) != 2) return;
+		std::vector<std::vector<int>> seqs; sequences(r.tier, seqs);
+		if (si >= seqs.size()) return;
+		std::vector<Bytes> alpha = alphabet(r.tier), msgs; for (int i : seqs[si]) msgs.push_back(alpha[i]);
+		L2Counters c = {};
+		int dev = r.tier == Quick ? 2 : 3;
+		if (rep) { dfs_replay(r, [&](Ctx &x) { level2_body(r, c, f, msgs, x); }, *rep); return; }
+		r.require("stream_level_short_transfers");
+		dfs(r, [&](Ctx &x) { level2_body(r, c, f, msgs, x); }, dev);
+		r.states += c.exec; r.count("stream_level_executions", c.exec); r.count("stream_level_short_transfers", c.nontrivial); r.count("nontrivial", c.nontrivial);
+		if (si == 8 && f == 0) r.sample(fmt("stream level: %s, messages %zu, all schedules with <= %d deviations (receiver before sender, short write/read, EAGAIN, delayed flush)", ref::framing_name[f], msgs.size(), dev));
+		return;
+	}
 	if (sscanf(job.c_str(), "%d:%zu", &f, &si) != 2) return;
 	std::vector<std::vector<int>> seqs; sequences(r.tier, seqs);
 	if (si >= seqs.size()) return;
